@@ -271,7 +271,7 @@ func newRegexFc(ch rune, not, nullable, caseInsensitive bool) regexFc {
 		if ch > 0 {
 			r.cc.addRange('\x00', ch-1)
 		}
-		if ch < 0xFFFF {
+		if ch < utf8.MaxRune {
 			r.cc.addRange(ch+1, utf8.MaxRune)
 		}
 	} else {
